@@ -159,6 +159,11 @@ class FakeSnowflakeCursor:
             expression.transform(transforms.upper_case_unquoted_identifiers)
             .transform(transforms.update_variables, variables=self._conn.variables)
             .transform(transforms.set_schema, current_database=self._conn.database)
+            .transform(
+                transforms.current_database_schema,
+                current_database=self._conn.database if self._conn.database_set else None,
+                current_schema=self._conn.schema if self._conn.schema_set else None,
+            )
             .transform(transforms.create_database, db_path=self._conn.db_path)
             .transform(transforms.extract_comment_on_table)
             .transform(transforms.extract_comment_on_columns)
